@@ -129,10 +129,44 @@ impl std::error::Error for EntityFailure {}
 /// end forever (C20's proviso).
 pub struct ScriptStream {
     evs: VecDeque<Ev>,
+    /// what `Stream::size_hint` claims (advisory; nothing in `serve` may trust it): 0 = the
+    /// default `(0, None)`, 1 = exact and honest, 2 = "nothing left" `(0, Some(0))`, 3 = huge,
+    /// 4 = contradictory
+    hint: u8,
+}
+
+impl ScriptStream {
+    pub fn new(script: Vec<Ev>) -> Self {
+        static TICK: std::sync::atomic::AtomicU64 = std::sync::atomic::AtomicU64::new(0);
+        let t = TICK.fetch_add(1, std::sync::atomic::Ordering::Relaxed);
+        let h = (t.wrapping_mul(0x9E37_79B9_7F4A_7C15) >> 40) % 10;
+        // half default, the rest spread
+        let hint = if h < 5 { 0 } else { (h - 4) as u8 % 5 };
+        if hint >= 2 {
+            case_note(match hint {
+                2 => "an entity stream's size_hint claimed (0, Some(0))",
+                3 => "an entity stream's size_hint claimed (usize::MAX, Some(usize::MAX))",
+                _ => "an entity stream's size_hint claimed (5, Some(1))",
+            });
+        }
+        ScriptStream { evs: script.into_iter().collect(), hint }
+    }
 }
 
 impl Stream for ScriptStream {
     type Item = Result<Bytes, BoxError>;
+    fn size_hint(&self) -> (usize, Option<usize>) {
+        match self.hint {
+            0 => (0, None),
+            1 => {
+                let n = self.evs.iter().filter(|e| !matches!(e, Ev::Pending)).count();
+                (n, Some(n))
+            }
+            2 => (0, Some(0)),
+            3 => (usize::MAX, Some(usize::MAX)),
+            _ => (5, Some(1)),
+        }
+    }
     fn poll_next(mut self: Pin<&mut Self>, cx: &mut Context<'_>) -> Poll<Option<Self::Item>> {
         match self.evs.pop_front() {
             None => Poll::Ready(None),
@@ -191,6 +225,9 @@ pub struct HEntity {
     /// is being served (a log being appended to or rotated); empty = `len` every time
     pub later_lens: Arc<Mutex<VecDeque<u64>>>,
     len_calls: Arc<AtomicU64>,
+    /// an entity that panics (history calls only): 1 = in `add_headers`, after it has inserted
+    /// its headers; 2 = `etag`; 3 = `last_modified`; 4 = `len`; 5 = `get_range`
+    pub panic_at: u8,
 }
 
 impl HEntity {
@@ -204,6 +241,7 @@ impl HEntity {
             log: Default::default(),
             later_lens: Default::default(),
             len_calls: Default::default(),
+            panic_at: 0,
         }
     }
     /// A fresh copy sharing nothing (own log, own script queue).
@@ -217,6 +255,7 @@ impl HEntity {
             log: Default::default(),
             later_lens: Arc::new(Mutex::new(self.later_lens.lock().unwrap().clone())),
             len_calls: Default::default(),
+            panic_at: self.panic_at,
         }
     }
     pub fn header_map(&self) -> HeaderMap {
@@ -265,6 +304,9 @@ impl http_serve::Entity for HEntity {
     type Data = Bytes;
     fn len(&self) -> u64 {
         self.log.lock().unwrap().push(Call::Len);
+        if self.panic_at == 4 {
+            panic!("entity panics in len");
+        }
         if self.len_calls.fetch_add(1, Ordering::Relaxed) == 0 {
             return self.len;
         }
@@ -279,6 +321,9 @@ impl http_serve::Entity for HEntity {
             .lock()
             .unwrap()
             .push(Call::GetRange(range.start, range.end));
+        if self.panic_at == 5 {
+            panic!("entity panics in get_range");
+        }
         // the trait's contract: the range lies within the entity; like a slice, this entity
         // refuses anything else
         assert!(
@@ -294,9 +339,7 @@ impl http_serve::Entity for HEntity {
             .unwrap()
             .pop_front()
             .unwrap_or_else(|| honest_one_chunk(&range));
-        Box::pin(ScriptStream {
-            evs: script.into_iter().collect(),
-        })
+        Box::pin(ScriptStream::new(script))
     }
     fn add_headers(&self, h: &mut HeaderMap) {
         self.log.lock().unwrap().push(Call::AddHeaders);
@@ -306,15 +349,24 @@ impl http_serve::Entity for HEntity {
                 HeaderValue::from_bytes(v).unwrap(),
             );
         }
+        if self.panic_at == 1 {
+            panic!("entity panics in add_headers");
+        }
     }
     fn etag(&self) -> Option<HeaderValue> {
         self.log.lock().unwrap().push(Call::Etag);
+        if self.panic_at == 2 {
+            panic!("entity panics in etag");
+        }
         self.etag
             .as_ref()
             .map(|e| HeaderValue::from_bytes(e).unwrap())
     }
     fn last_modified(&self) -> Option<SystemTime> {
         self.log.lock().unwrap().push(Call::LastModified);
+        if self.panic_at == 3 {
+            panic!("entity panics in last_modified");
+        }
         self.mtime
     }
 }
@@ -378,6 +430,101 @@ pub struct HReq {
     /// how well-formed dates are written: 0 = IMF-fixdate, 1 = RFC 850, 2 = asctime (all three
     /// are HTTP-dates a recipient must accept, RFC 7231 section 7.1.1.1)
     pub date_fmt: u8,
+    /// "dressing": parts of a request the crate must not look at — the HTTP version, the request
+    /// target, unrelated header lines (0 = a plain HTTP/1.1 `GET /`). Printed in the protocol line
+    /// (`dress=`, ignored by the model) so that a failing case names it.
+    pub dress: u32,
+}
+
+/// Header lines that `serve` has no business reading (real-world request headers, some of them
+/// easily mistaken for something a file server should act on).
+pub const UNRELATED_HEADERS: &[(&str, &str)] = &[
+    ("cache-control", "no-cache"),
+    ("cache-control", "max-age=0, no-store"),
+    ("cache-control", "only-if-cached"),
+    ("pragma", "no-cache"),
+    ("te", "trailers, deflate;q=0.5"),
+    ("expect", "100-continue"),
+    ("connection", "close"),
+    ("connection", "keep-alive, TE"),
+    ("upgrade", "h2c"),
+    ("accept", "multipart/byteranges;q=0, */*;q=0.1"),
+    ("accept", "text/html"),
+    ("accept-encoding", "identity;q=0, gzip"),
+    ("accept-ranges", "none"),
+    ("content-length", "0"),
+    ("content-length", "5"),
+    ("content-range", "bytes 0-0/1"),
+    ("content-type", "multipart/byteranges; boundary=B"),
+    ("transfer-encoding", "chunked"),
+    ("host", "example.com"),
+    ("user-agent", "Wget/1.21 (resume)"),
+    ("user-agent", "Mozilla/4.0 (compatible; MSIE 6.0)"),
+    ("referer", "http://example.com/"),
+    ("x-http-method-override", "HEAD"),
+    ("x-http-method", "POST"),
+    ("x-forwarded-for", "10.0.0.1"),
+    ("forwarded", "for=10.0.0.1;proto=http"),
+    ("via", "1.0 proxy"),
+    ("max-forwards", "0"),
+    ("request-range", "bytes=0-0"),
+    ("unless-modified-since", "Thu, 01 Jan 1970 00:00:00 GMT"),
+    ("last-modified", "Thu, 01 Jan 1970 00:00:00 GMT"),
+    ("etag", "\"x\""),
+    ("date", "Thu, 01 Jan 2037 00:00:00 GMT"),
+    ("date", "Thu, 01 Jan 1970 00:00:00 GMT"),
+    ("if", "(<urn:x> [\"x\"])"),
+    ("if-schedule-tag-match", "\"x\""),
+    ("a-im", "feed"),
+    ("prefer", "return=minimal"),
+    ("authorization", "Basic Og=="),
+    ("cookie", "range=bytes=0-0"),
+    ("origin", "null"),
+    ("dnt", "1"),
+    ("save-data", "on"),
+    ("sec-fetch-mode", "no-cors"),
+    ("priority", "u=7, i"),
+    ("vary", "*"),
+    ("trailer", "etag"),
+    ("keep-alive", "timeout=0"),
+    ("x-range", "bytes=0-0"),
+    ("ranges", "bytes=0-0"),
+];
+
+const DRESS_VERSIONS: [http::Version; 5] =
+    [http::Version::HTTP_11, http::Version::HTTP_10, http::Version::HTTP_09, http::Version::HTTP_2, http::Version::HTTP_3];
+const DRESS_URIS: [&str; 8] = ["/", "/a/b.txt?range=bytes=0-0", "*", "http://example.com/x", "/%2e%2e/", "/x.gz", "example.com:443", "/?"];
+
+/// Applies a dressing to a request under construction: version, request target and 0–3 unrelated
+/// header lines (placed before the ones that matter). `negotiating`: the request is for
+/// `should_gzip` / `streaming_body`, so `Accept-Encoding` is not unrelated.
+pub fn dress_request(b: http::request::Builder, d: u32, negotiating: bool) -> http::request::Builder {
+    if d == 0 {
+        return b.uri("/");
+    }
+    // half of the dressed requests keep HTTP/1.1, the others are spread over the rest
+    let v = if (d >> 1) % 2 == 0 { 0 } else { 1 + ((d >> 2) % 4) as usize };
+    let u = if (d >> 5) % 3 == 0 { ((d >> 7) % 8) as usize } else { 0 };
+    let mut b = b.version(DRESS_VERSIONS[v]).uri(DRESS_URIS[u]);
+    let n = ((d >> 10) % 4) as usize;
+    for k in 0..n {
+        let (name, value) = UNRELATED_HEADERS[((d >> (12 + 6 * k as u32)) as usize) % UNRELATED_HEADERS.len()];
+        if negotiating && name == "accept-encoding" {
+            continue;
+        }
+        b = b.header(name, value);
+    }
+    b
+}
+
+pub fn next_dress() -> u32 {
+    static TICK: std::sync::atomic::AtomicU64 = std::sync::atomic::AtomicU64::new(0);
+    let t = TICK.fetch_add(1, std::sync::atomic::Ordering::Relaxed);
+    let h = (t.wrapping_add(1)).wrapping_mul(0x9E37_79B9_7F4A_7C15) ^ (t >> 7);
+    let h = (h ^ (h >> 29)).wrapping_mul(0xBF58_476D_1CE4_E5B9);
+    let h = (h ^ (h >> 32)) as u32;
+    // about two requests in five are plain
+    if h % 5 < 2 { 0 } else { h | 1 }
 }
 
 /// `secs` after the epoch in one of the three HTTP-date formats.
@@ -420,6 +567,7 @@ impl HReq {
             ims: DateH::Absent,
             repeats: vec![],
             date_fmt: 0,
+            dress: next_dress(),
         }
     }
     pub fn m_field(&self) -> &'static str {
@@ -430,9 +578,11 @@ impl HReq {
         }
     }
     pub fn build(&self) -> http::Request<()> {
-        let mut b = http::Request::builder()
-            .method(http::Method::from_bytes(self.method.as_bytes()).unwrap())
-            .uri("/");
+        let mut b = dress_request(
+            http::Request::builder().method(http::Method::from_bytes(self.method.as_bytes()).unwrap()),
+            self.dress,
+            false,
+        );
         let add = |b: http::request::Builder, n: &str, v: &Option<Vec<u8>>| match v {
             Some(v) => b.header(n, HeaderValue::from_bytes(v).unwrap()),
             None => b,
@@ -740,7 +890,7 @@ fn secs_now() -> u64 {
 /// The `SERVE` request line for this request/entity, given the clock value observed.
 pub fn serve_line(q: &HReq, e: &HEntity, now: u64) -> String {
     format!(
-        "SERVE m={} len={} etag={} mtime={} now={} range={} ifrange={} im={} inm={} ius={} ims={} eh={}",
+        "SERVE m={} len={} etag={} mtime={} now={} range={} ifrange={} im={} inm={} ius={} ims={} eh={} dress={}",
         q.m_field(),
         e.len,
         opt_hex(e.etag.as_deref()),
@@ -752,7 +902,8 @@ pub fn serve_line(q: &HReq, e: &HEntity, now: u64) -> String {
         opt_hex(q.if_none_match.as_deref()),
         HReq::date_field(&q.ius),
         HReq::date_field(&q.ims),
-        e.eh_field()
+        e.eh_field(),
+        q.dress
     )
 }
 
@@ -766,6 +917,60 @@ pub fn serve_line(q: &HReq, e: &HEntity, now: u64) -> String {
 // map) shows up in the case that follows, whose failure message then names the call before it.
 
 static HISTORY_TICK: AtomicU64 = AtomicU64::new(0);
+/// How writers are dropped for the current case: `false` = an ordinary `drop`, `true` = by stack
+/// unwinding (the producer "panics" while it owns the writer, `std::thread::panicking()` is true in
+/// the writer's `Drop`). The properties speak of the writer being dropped, however that happens.
+pub static UNWIND_DROPS: std::sync::atomic::AtomicBool = std::sync::atomic::AtomicBool::new(false);
+/// Set when a writer was dropped by unwinding since the last record (named in a failed predicate).
+static UNWOUND: std::sync::atomic::AtomicBool = std::sync::atomic::AtomicBool::new(false);
+struct HarnessUnwind;
+
+/// Chooses the drop mode for the next case from a deterministic counter (about one case in four
+/// drops its writer by unwinding).
+pub fn choose_drop_mode() {
+    static TICK: std::sync::atomic::AtomicU64 = std::sync::atomic::AtomicU64::new(0);
+    let t = TICK.fetch_add(1, std::sync::atomic::Ordering::Relaxed);
+    let h = t.wrapping_mul(0x9E37_79B9_7F4A_7C15) >> 33;
+    UNWIND_DROPS.store(h % 4 == 0, std::sync::atomic::Ordering::SeqCst);
+}
+
+/// Drops `v` in the current drop mode; `true` if the drop itself panicked (with an ordinary drop)
+/// — a panic of the code under test inside a drop that runs during unwinding aborts the process,
+/// which the orchestrator reports as a harness death.
+pub fn drop_in_mode<T>(v: T) -> bool {
+    if UNWIND_DROPS.load(std::sync::atomic::Ordering::SeqCst) {
+        UNWOUND.store(true, std::sync::atomic::Ordering::SeqCst);
+        let r = std::panic::catch_unwind(std::panic::AssertUnwindSafe(move || {
+            let _v = v;
+            std::panic::resume_unwind(Box::new(HarnessUnwind));
+        }));
+        match r {
+            Err(p) => !p.is::<HarnessUnwind>(),
+            Ok(()) => false,
+        }
+    } else {
+        std::panic::catch_unwind(std::panic::AssertUnwindSafe(move || drop(v))).is_err()
+    }
+}
+
+fn take_unwound() -> bool {
+    UNWOUND.swap(false, std::sync::atomic::Ordering::SeqCst)
+}
+
+/// Circumstances of the current case that the protocol line does not show (appended to a failed
+/// predicate, cleared with every record).
+static CASE_NOTES: Mutex<Vec<&'static str>> = Mutex::new(Vec::new());
+pub fn case_note(n: &'static str) {
+    if let Ok(mut v) = CASE_NOTES.lock() {
+        if !v.contains(&n) {
+            v.push(n);
+        }
+    }
+}
+fn take_case_notes() -> Vec<&'static str> {
+    CASE_NOTES.lock().map(|mut v| std::mem::take(&mut *v)).unwrap_or_default()
+}
+
 static LAST_HISTORY: Mutex<String> = Mutex::new(String::new());
 
 pub fn last_history() -> String {
@@ -785,7 +990,7 @@ pub fn history_noise() {
         LAST_HISTORY.lock().unwrap().clear();
         return;
     }
-    let k = (z >> 8) % 13;
+    let k = (z >> 8) % 19;
     let mut e = HEntity::new(1000);
     e.etag = Some(b"\"other-entity\"".to_vec());
     e.mtime = Some(UNIX_EPOCH + Duration::new(1_000_000_000, 123));
@@ -810,6 +1015,14 @@ pub fn history_noise() {
         10 => { q.range = Some(b"bytes=900-901,oops".to_vec()); "a Range list with a valid spec and then a malformed one" }
         11 => { q.if_none_match = Some(b"\"other-entity\", \"b\", oops".to_vec()); q.if_match = Some(b"\"a\", W/".to_vec()); "entity-tag lists that turn malformed after valid tags" }
         12 => { q.range = Some(b"bytes=0-0,5-5".to_vec()); q.if_range = Some(b"\"other-entity\"".to_vec()); "multipart GET of another entity with a matching If-Range, drained" }
+        // a handler that panicked half-way (the panic caught, the thread reused, as a tokio
+        // worker is after a task panicked)
+        13 => { q.range = Some(b"bytes=0-0, 5-5".to_vec()); e.panic_at = 1; "multipart GET of another entity whose add_headers panicked after adding its headers" }
+        14 => { e.panic_at = 1; "plain GET of another entity whose add_headers panicked after adding its headers" }
+        15 => { q.range = Some(b"bytes=0-0, 5-5".to_vec()); e.panic_at = 5; "multipart GET of another entity whose get_range panicked" }
+        16 => { q.if_none_match = Some(b"\"x\"".to_vec()); e.panic_at = 2; "conditional GET of another entity whose etag() panicked" }
+        17 => { q.range = Some(b"bytes=1-2".to_vec()); e.panic_at = 3; "range GET of another entity whose last_modified() panicked" }
+        18 => { q.range = Some(b"bytes=1-2,4-5".to_vec()); e.panic_at = 4; "multi-range GET of another entity whose len() panicked" }
         8 | _ => {
             // a streaming body negotiated for another client
             let ae: &[u8] = if k == 8 { b"gzip" } else { b"GZIP;q=0, identity" };
@@ -1165,6 +1378,10 @@ impl Emit {
         // a failure right after a history call names that call (see `history_noise`)
         let h = if pred == "ok" { String::new() } else { last_history() };
         let pred = if h.is_empty() { pred.to_string() } else { format!("{} [the call before this one on the same thread: {}]", pred, h) };
+        let unwound = take_unwound();
+        let notes = take_case_notes();
+        let pred = if pred != "ok" && !notes.is_empty() { format!("{} [{}]", pred, notes.join("; ")) } else { pred };
+        let pred = if pred != "ok" && unwound { format!("{} [a writer or body was dropped by stack unwinding (its owner panicked)]", pred) } else { pred };
         writeln!(self.out, "CASE\t{}\t{}\t{}\t{}", line, impl_out, pred, class).unwrap();
         self.n += 1;
     }
@@ -1174,6 +1391,17 @@ impl Emit {
     }
     /// A check of the implementation alone (nothing for the model to say).
     pub fn pred_only(&mut self, desc: &str, pred: &str, class: &str) {
+        let notes = take_case_notes();
+        let unwound = take_unwound();
+        let mut pred = pred.to_string();
+        if pred != "ok" {
+            if !notes.is_empty() {
+                pred = format!("{} [{}]", pred, notes.join("; "));
+            }
+            if unwound {
+                pred = format!("{} [a writer or body was dropped by stack unwinding]", pred);
+            }
+        }
         writeln!(self.out, "PRED\t{}\t{}\t{}", desc, pred, class).unwrap();
         self.n += 1;
     }
@@ -1280,6 +1508,9 @@ struct RopeStream(Pin<Box<dyn Stream<Item = Result<Bytes, BoxError>> + Send + Sy
 
 impl Stream for RopeStream {
     type Item = Result<Rope, BoxError>;
+    fn size_hint(&self) -> (usize, Option<usize>) {
+        self.0.size_hint()
+    }
     fn poll_next(mut self: Pin<&mut Self>, cx: &mut Context<'_>) -> Poll<Option<Self::Item>> {
         match self.0.as_mut().poll_next(cx) {
             Poll::Ready(Some(Ok(b))) => Poll::Ready(Some(Ok(Rope::split(&b)))),
